@@ -303,12 +303,12 @@ def _patch_discharge():
             nontype = [h for h in quant if not _type_only(h)]
             plans = [('', H, 1000),
                      (f'(last 40 of {len(H)} hypotheses)', H[-40:], 1500),
-                     (f'(ground + last 40 quantified non-type hypotheses of {len(H)})', ground + nontype[-40:], 2000),
-                     (f'(without the {len(quant) - len(nontype)} type-only quantified hypotheses of {len(H)})', ground + nontype, 2500),
-                     (f'(ground + last 120 quantified non-type hypotheses of {len(H)})', ground + nontype[-120:], 2500),
                      (f'(last 60 of {len(H)} hypotheses)', H[-60:], 1500),
+                     (f'(ground + last 40 quantified non-type hypotheses of {len(H)})', ground + nontype[-40:], 2000),
+                     (f'(last 130 of {len(H)} hypotheses)', H[-130:], 2000),
+                     (f'(without the {len(quant) - len(nontype)} type-only quantified hypotheses of {len(H)})', ground + nontype, 2500),
                      (f'(last 90 of {len(H)} hypotheses)', H[-90:], 1500),
-                     (f'(last 130 of {len(H)} hypotheses)', H[-130:], 1500)]
+                     (f'(ground + last 120 quantified non-type hypotheses of {len(H)})', ground + nontype[-120:], 2500)]
             for label, hyps, tmo in plans:
                 s = z3.Solver()
                 s.set('timeout', min(tmo, timeout_ms))
